@@ -29,6 +29,7 @@ package db
 //@   ensures certLookupNoRows == (result != nil && isErr(result, sql.ErrNoRows))
 //@   ensures result == nil ==> cast(dst, *certificateInfo).Height == caller.height
 //@ func getCertificateByHeight (db, height)
+//@   threads db
 //@   props C13 C02
 //@   sqltext "SELECT * FROM certificate_info WHERE height = $1;"
 //@   requires db != nil
